@@ -106,6 +106,20 @@ def main():
 
     # 4. correspond + oracle on the implementation
     ctx = Ctx(pid, tier, seed, model)
+    # watchdog: an implementation that spins or hangs on a generated input must end in a VIOLATION, not in a check that never
+    # returns (the harnesses bound individual waits, but a busy session thread can starve them)
+    import signal
+    limit = int(os.environ.get('VERIF_WATCHDOG', '') or (1200 if tier == 'quick' else 10800))
+    def _hung(signum, frame):
+        last = ctx.samples[-1] if getattr(ctx, 'samples', None) else None
+        body = dict(found_by='watchdog', what='the check did not finish within %d s: the code under test hangs or spins on one of the generated inputs' % limit,
+                    evaluations_so_far=ctx.evaluations, last_sample=last, stack=''.join(traceback.format_stack(frame))[-3000:],
+                    note='no concrete failing input was isolated; the property is no longer shown to hold because the correspondence run does not terminate')
+        pth = write_replay(pid, tier, seed, 'obligation', body)
+        print('VIOLATION property=%s replay=%s no-failing-input-found' % (pid, pth), flush=True)
+        os._exit(1)
+    if hasattr(signal, 'SIGALRM'):
+        signal.signal(signal.SIGALRM, _hung); signal.alarm(limit)
     try:
         plugin.run(ctx)
     except Exception:
